@@ -4,26 +4,38 @@ with at most one active name, per user.
 
 Oracle: spec/Sieve.tla (reference model, two users, three connections).
 
-1. TLC checks the model's own properties exhaustively (Sieve_small.cfg):
-   at most one active, active is stored, LISTSCRIPTS exact, the gate, isolation
-   of users, PUT-then-GET, RENAME keeps content and active status, the active
-   script never disappears, frame condition of the map.
-2. spec -> code, exhaustive: the state graph of the small scope (VIEW without
-   `last`; every edge label carries the result `r` the server must give) is
-   dumped, an edge cover is computed and every edge is replayed on the real
-   ManageSieve server (connections c1, c2, c3 of the model + two probe
-   connections).  After EVERY step: the response is parsed by the strict
-   parser below and compared with r; LISTSCRIPTS + GETSCRIPT of every name on
-   the probe connections are compared with the model's store of BOTH users;
-   CAPABILITY on the acting connection is compared with the model's auth.
+1. TLC checks the model's own properties exhaustively (Sieve_small.cfg, and
+   Sieve_medium.cfg in the thorough tier): at most one active, active is
+   stored, LISTSCRIPTS exact, the gate, only AUTHENTICATE authenticates, an
+   incomplete command does nothing, isolation of users, PUT-then-GET, RENAME
+   keeps content and active status, the active script never disappears, frame
+   condition of the map.
+2. spec -> code, exhaustive: the state graph of the small (thorough: medium)
+   scope is dumped with VIEW = the state without `last`; every edge label
+   carries the result `r` the server must give.  An edge cover is computed and
+   every edge is replayed on the real ManageSieve server (connections c1, c2,
+   c3 of the model + two probe connections).  After EVERY step: the response
+   is parsed by the strict parser below and compared with r; LISTSCRIPTS +
+   GETSCRIPT of every name on the probe connections are compared with the
+   model's store of BOTH users; the authentication state of the connections
+   is compared with the model's (CAPABILITY/OWNER on the wire after every
+   command that is about authentication, the server's connection objects
+   after every command).
 3. spec -> code, random: `-simulate` behaviours of the full scope (any
    connection may log in as any user), seeded with VERIF_SEED, same replay.
 4. byte-level sweep: fixed abstract scenarios (walked in the graph, so the
    expectations are still TLC's) under every concretisation family of names,
    script bytes and string encodings, including protocol-shaped bytes.
 
+Where the property leaves latitude the model has alternatives (r.alt); the
+alternative the server takes is measured once (calibrate) and the others are
+pruned from the graph / switched off for -simulate.
+
 Python only concretises abstract commands, parses and abstracts responses and
-compares them with what TLC computed.
+compares them with what TLC computed.  Mismatches with a clause of the
+property (gate, map laws, isolation) are violations; anything else the model
+is more precise about (response codes, CHECKSCRIPT/HAVESPACE verdicts, NOOP
+tags, capability lines) is drift.
 """
 
 from __future__ import annotations
@@ -1330,7 +1342,7 @@ def main(tier: str) -> int:
              'drift': {}}
 
     # simulation of the full scope with the measured latitude: start TLC now
-    num, depth, chunks = (160, 60, 1) if quick else (4000, 100, 8)
+    num, depth, chunks = (160, 60, 1) if quick else (8000, 100, 8)
     cfg = open(os.path.join(tlc.SPEC_DIR, 'Sieve_sim.cfg')).read()
     lat = ', '.join(f'"{x}"' for x in sorted({taken['authz'], taken['putbad']}))
     cfg = re.sub(r'Latitude = \{[^}]*\}', 'Latitude = {' + lat + '}', cfg)
